@@ -108,6 +108,47 @@ def wrapPrefix (table : List PrefixEntry) (reveal : Bytes → Option String) (re
   if d.length < prefixTagLen then .tryAgain
   else prefixLoop reveal regs d {} table
 
+/-! ## prefix with several station keys
+
+`getReg` (prefix.go) tries every configured private key in order: the window is revealed under the
+key, and if the revealed identifier is not registered on this phantom the next key is tried.
+`reveals w` lists, in key order, what each key reveals for the window `w` (a key for which
+`TryReveal` fails contributes nothing).  `wrapPrefix` above is the one-key special case
+(`wrapPrefixK_single`); it is kept unchanged because C03 / C04 build on it. -/
+
+def getRegK (regs : List RegView) (ids : List String) : Option RegView := ids.findSome? (findReg regs)
+
+def prefixIterK (reveals : Bytes → List String) (regs : List RegView) (d : Bytes) (st : PLoop)
+    (e : PrefixEntry) : Verdict ⊕ PLoop :=
+  if !staticOk e d then .inr st
+  else if d.length < e.minLen then .inr { st with tryAgain := true }
+  else if d.length < e.offset + prefixTagLen && d.length < e.maxLen then .inr { st with tryAgain := true }
+  else if d.length < e.maxLen then .inr st
+  else if d.length < e.offset + prefixTagLen then .inl .panic        -- slice out of range
+  else
+    match getRegK regs (reveals (window d e.offset)) with
+    | none => .inr st
+    | some r =>
+      if r.transport != 4 then .inl .errIncorrectTransport
+      else if r.prefixParam != some (some e.id) then .inr { st with wrong := true }
+      else .inl (.found r.rid (e.offset + prefixTagLen))
+
+def prefixLoopK (reveals : Bytes → List String) (regs : List RegView) (d : Bytes) :
+    PLoop → List PrefixEntry → Verdict
+  | st, [] =>
+    if !st.tryAgain && st.wrong then .errIncorrectPrefix
+    else if st.tryAgain then .tryAgain else .notTransport
+  | st, e :: es =>
+    match prefixIterK reveals regs d st e with
+    | .inl v => v
+    | .inr st' => prefixLoopK reveals regs d st' es
+
+/-- `prefix.Transport.WrapConnection` with any number of station keys -/
+def wrapPrefixK (table : List PrefixEntry) (reveals : Bytes → List String) (regs : List RegView)
+    (d : Bytes) : Verdict :=
+  if d.length < prefixTagLen then .tryAgain
+  else prefixLoopK reveals regs d {} table
+
 /-! ## obfs4 -/
 
 def obfs4MinHandshake : Nat := 64      -- representative 32 + mark 16 + mac 16
